@@ -125,8 +125,10 @@ def check(facts, rep, tier, cfg):
             rep.ok("C16.R2", "interval-source", where, "interval <- keepalive_interval")
         else:
             rep.bad("C16.R2", "interval-source", where, "ping interval is not built from keepalive_interval")
-    if cfg in ("default", "mux-std-only", "mux-nohash", "mux-yawc"):
+    if "tokio-time" in crate.features:
         rep.floor("C16.R2", "keepalive loops", n2, 1)
+    else:
+        rep.info("tokio-time disabled in %s: keepalive is compiled out (schedule_ping_task awaits pending())" % cfg)
     # ---- R3
     rep.rule("C16.R3", "Options::keepalive_timeout stores max(arg, keepalive_interval)")
     n3 = 0
